@@ -110,6 +110,11 @@ def run(chk):
             chk.count("kind_" + kind.split(":")[0] + ("_acc" if r[0] == "ok" else "_rej"))
             rep = dict(op="fromdict", document=m, kind=kind, impl=r[0] if r[0] == "err" else "ok")
             mr = drv.call("fromdict", m)
+            if r[0] == "ok" and kind in ("defaults.unused-invalid", "defaults.overridden-invalid"):
+                # invalid by construction (a default whose value breaks its field's rule), whatever the model says
+                chk.violation("reject:accepts-invalid:default", "a document with an invalid default value is accepted (the default is used "
+                              "nowhere, which the specification does not excuse)", dict(rep, defaults=m.get("defaults")))
+                continue
             if r[0] != mr[0]:
                 chk.disagreements += 1
                 # who is right?  ask the independent validator when it applies
